@@ -55,8 +55,26 @@ def cases(tier, seed):
     return out
 
 
+def _prime(rng):
+    """forward factorizations must not depend on what ran earlier in the process: now and then a reverse sweep through a
+    randomly chosen factorization program is executed first (caches, class-level state, reused buffers)"""
+    from .. import progs
+    facts = [p for p in progs.cat() if 'fact' in p.tags and not p.maxD]
+    prog = facts[int(rng.integers(len(facts)))]
+    try:
+        xs = prog.make_inputs(rng, 2, 1)
+        cg, _ = progs.record(prog.f, [x[0, 0].copy() for x in xs])
+        cg.pushforward([UTPM(x.copy()) for x in xs])
+        y = cg.dependentFunctionList[0].x
+        cg.pullback([UTPM(rng.normal(size=y.data.shape))])
+    except Exception:
+        pass
+
+
 def run_case(ctx, case):
     rng = gen.rng_of(case)
+    if rng.random() < 0.35:
+        _prime(rng)
     return globals()['_' + case['kind']](ctx, case['params'], rng)
 
 
